@@ -1,30 +1,25 @@
 import Jrpc.Gen.Facts
 import Jrpc.Gen.Funcs
+import Jrpc.Tie.Util
 /-! # Tie obligations for C04 / C05: who touches the client's guarded state in the current source. -/
 namespace Jrpc.Tie.C04
-open Jrpc.Gen Jrpc.Gen.Facts Jrpc.GoPrelude
+open Jrpc.Gen Jrpc.Gen.Facts Jrpc.GoPrelude Jrpc.Tie
 
-def ops (field : String) : List (String × String × Bool) :=
-  (writers.filter fun s => s.field == field).map fun s => (s.fn, s.what, s.locked)
-
-/-- the pending set: registered only in `send` (after the transmit, under the same lock), removed
-only by `deliverLocked` and `waitComplete`, always under the mutex — the one remover is the one
-writer of the request's slot -/
+/-- the pending set: one registration, two removals (delivery; context watcher), always under the
+mutex - the one remover is the one writer of the request's slot -/
 theorem pending_writers :
-    ops "c.pending" = [("deliverLocked", "delete", true), ("send", "assign", true), ("waitComplete", "delete", true)] := by decide
+    cnt "c.pending" "assign" = 1 ∧ cnt "c.pending" "delete" = 2 ∧ total "c.pending" = 3 ∧ allLocked "c.pending" = true := by decide
 
-/-- the id counter is advanced only in `req`, under the mutex -/
-theorem id_counter : ops "c.nextID" = [("req", "assign", true)] := by decide
+/-- the id counter is advanced at one site, under the mutex -/
+theorem id_counter : cnt "c.nextID" "assign" = 1 ∧ total "c.nextID" = 1 ∧ allLocked "c.nextID" = true := by decide
 
-/-- stop state is written only by `stopLocked` -/
+/-- stop state is written at one site each, under the mutex -/
 theorem stop_state :
-    ops "c.err" = [("stopLocked", "assign", true)] ∧ ops "c.ch" = [("stopLocked", "assign", true)] := by decide
+    total "c.err" = 1 ∧ allLocked "c.err" = true ∧ total "c.ch" = 1 ∧ allLocked "c.ch" = true := by decide
 
-/-- goroutines of the client: one reader (NewClient), one delivery goroutine per inbound message
-(accept), one per callback (handleRequestLocked), one context watcher per request (send) -/
-theorem client_goroutines :
-    (goStmts.filter (·.file == "client.go")).map (fun s => (s.fn, s.what)) =
-      [("NewClient", "func"), ("accept", "func"), ("handleRequestLocked", "func"), ("send", "c.waitComplete")] := by decide
+/-- goroutines of the client: one reader, one delivery goroutine per inbound message, one per
+callback, one context watcher per request - four `go` statements, one of them `go c.waitComplete(…)` -/
+theorem client_goroutines : goCount "client.go" = 4 ∧ goNamed "c.waitComplete" = 1 := by decide
 
 /-- context errors are mapped back to the sentinels by `filterError` -/
 theorem filter_error (c : Int) :
